@@ -60,7 +60,7 @@ def time_of(it):
 def truth(var, it, rl, rtag, shape):
     nx, ny, nz = shape
     i, j, k = np.meshgrid(np.arange(nx), np.arange(ny), np.arange(nz), indexing='ij')
-    base = ((CODE[var] * 4096 + it) * 64 + rl * 16 + rtag)
+    base = ((CODE[var] * 2097152 + it) * 64 + rl * 16 + rtag)    # it < 2^21
     return base + i + j / 64.0 + k / 4096.0
 
 
